@@ -48,6 +48,7 @@ type Spec struct {
 type Lane struct {
 	Name     string
 	Race     bool // run with the -race binary; every race report is a violation
+	Asan     bool // run with the -asan binary (built for the thorough tier only); a report kills the child = crash violation
 	Children func(tier string) int
 	Cases    func(tier string) int // per child
 	// TimeoutS is the watchdog for one child (firing = inconclusive, not a violation).
@@ -335,6 +336,7 @@ func Main(spec *Spec, args []string) {
 	only := fs.Int("only", -1, "run only this case index (replay)")
 	replay := fs.String("replay", "", "replay file")
 	raceBin := fs.String("racebin", "", "path of the -race build of this binary")
+	asanBin := fs.String("asanbin", "", "path of the -asan build of this binary")
 	_ = fs.Parse(args)
 	if *tier != "quick" && *tier != "thorough" {
 		fmt.Fprintln(os.Stderr, "bad tier")
@@ -347,7 +349,7 @@ func Main(spec *Spec, args []string) {
 		runChild(spec, *lane, *tier, *seed, *child, *nchild, *out, *only)
 		return
 	}
-	os.Exit(parent(spec, *tier, *seed, *lane, *raceBin))
+	os.Exit(parent(spec, *tier, *seed, *lane, *raceBin, *asanBin))
 }
 
 func envOr(k, d string) string {
@@ -445,7 +447,7 @@ type childRun struct {
 	races  []string
 }
 
-func parent(spec *Spec, tier string, seed int64, onlyLane, raceBin string) int {
+func parent(spec *Spec, tier string, seed int64, onlyLane, raceBin, asanBin string) int {
 	start := time.Now()
 	self, _ := os.Executable()
 	work := filepath.Join(OutRoot, "build", "run", fmt.Sprintf("%s-%d", spec.ID, os.Getpid()))
@@ -476,6 +478,13 @@ func parent(spec *Spec, tier string, seed int64, onlyLane, raceBin string) int {
 			sem <- struct{}{}
 			defer func() { <-sem }()
 			bin := self
+			if r.lane.Asan {
+				if asanBin == "" {
+					r.err = fmt.Errorf("asan lane needs -asanbin")
+					return
+				}
+				bin = asanBin
+			}
 			if r.lane.Race {
 				if raceBin == "" {
 					r.err = fmt.Errorf("race lane needs -racebin")
@@ -494,6 +503,9 @@ func parent(spec *Spec, tier string, seed int64, onlyLane, raceBin string) int {
 			cmd.Stdout = errf
 			cmd.Stderr = errf
 			cmd.Env = append(os.Environ(), "GOTRACEBACK=all")
+			if r.lane.Asan {
+				cmd.Env = append(cmd.Env, "ASAN_OPTIONS=detect_leaks=0:abort_on_error=1:halt_on_error=1")
+			}
 			if r.lane.Race {
 				cmd.Env = append(cmd.Env, "GORACE=halt_on_error=0 log_path="+r.out+".race")
 			}
